@@ -85,7 +85,8 @@ func enumerateFaults(c *Case, run func(w io.Writer) error) {
 }
 
 func c19Gen(r *RNG, id string) *Case {
-	kinds := []string{"snps", "snps-agg", "variants", "variants-agg", "toma", "toma-wrap", "samvariants", "closest", "closest-n", "closest-table", "list", "topranking", "topranking-table", "topa-devfull", "cli-devfull", "anycmd-devfull", "anycmd-devfull"}
+	kinds := []string{"snps", "snps-agg", "variants", "variants-agg", "toma", "toma-wrap", "samvariants", "closest", "closest-n", "closest-table", "list", "topranking", "topranking-table", "topa-devfull", "cli-devfull", "anycmd-devfull", "anycmd-devfull",
+		"indels-ins", "indels-del", "indels-shared"}
 	kind := kinds[r.Intn(len(kinds))]
 	var base *Case
 	switch kind {
@@ -103,6 +104,10 @@ func c19Gen(r *RNG, id string) *Case {
 		}
 	case "samvariants":
 		base = samVarGen(r, id, 2, false)
+	case "indels-ins", "indels-del", "indels-shared":
+		// sam indels: the one command with two outputs; the fault sits in the insertions table, in the deletions table, or
+		// in one destination that both tables go to
+		base = samVarGen(r, id, 5, false)
 	case "closest", "closest-n", "closest-table":
 		base = c06Gen(r, id, "C06")
 		switch kind {
@@ -168,6 +173,18 @@ func execFault(r *RNG, c *Case) {
 		enumerateFaults(c, func(w io.Writer) error {
 			return variants.Variants(bytes.NewReader([]byte(msa)), c.Get("refmode") == "stdin", refID, strings.NewReader(c.Get("anntext")), c.Get("annfmt"), w,
 				-1, -1, c.Get("cmd") == "variants-agg", 0, true, 2)
+		})
+	case "indels-ins", "indels-del", "indels-shared":
+		txt, _ := caseSam(c)
+		enumerateFaults(c, func(w io.Writer) error {
+			ok := &faultWriter{}
+			switch c.Get("cmd") {
+			case "indels-ins":
+				return sam.Indels(strings.NewReader(txt), w, ok, 1)
+			case "indels-del":
+				return sam.Indels(strings.NewReader(txt), ok, w, 1)
+			}
+			return sam.Indels(strings.NewReader(txt), w, w, 1)
 		})
 	case "toma", "toma-wrap":
 		txt, _ := caseSam(c)
